@@ -411,6 +411,58 @@ func runC02(c *eng.Ctx) {
 		c.Guard("GUARD-crc", "size-matches-index", fn, eng.Entry(fn), succ, eng.PassEdges(fn, sizeEq), "the record is returned only when its header size equals the size recorded in the index")
 	}
 
+	// ---------------- (4b) the padding of a record is computed from the size recorded in its header
+	{
+		n := 0
+		for _, spec := range [][2]string{{"weed/storage/needle", "(*Needle).prepareWriteBuffer"}, {"weed/storage/needle", "(*Needle).ReadBytes"}, {"weed/storage", "(*Volume).StreamWrite"}} {
+			fn := c.NeedFunc(spec[0], spec[1])
+			if fn == nil {
+				continue
+			}
+			for _, in := range eng.Find(fn, eng.PlainCallTo("needle.PaddingLength")) {
+				call := in.(*ssa.Call)
+				ok := true
+				vals := eng.ResolveFrom(eng.Arg(call, 0), call)
+				for _, v := range vals {
+					if !eng.IsField(eng.Unwrap(v), "Needle.Size") {
+						ok = false
+					}
+				}
+				n++
+				c.Ob("PROV-padding", fmt.Sprintf("%s padding#%d", eng.FuncName(fn), n), ok && len(vals) > 0, call.Pos(),
+					"the padding written or skipped after a record is computed from the size stored in the record's header (Needle.Size), the value the reader aligns on")
+			}
+		}
+		c.Expect("PROV-padding", 3)
+		if fn := c.NeedFunc("weed/storage/needle", "NeedleBodyLength"); fn != nil {
+			calls := eng.Find(fn, eng.PlainCallTo("needle.PaddingLength"))
+			for i, in := range calls {
+				c.Ob("PROV-padding", fmt.Sprintf("NeedleBodyLength padding#%d", i), eng.IsParam(eng.Unwrap(eng.Arg(in.(*ssa.Call), 0)), "needleSize"), in.Pos(),
+					"the body length aligns on the same size it is given")
+			}
+		}
+	}
+
+	// ---------------- (4c) the checksum a writer stores is the checksum of the final data
+	for _, spec := range [][2]string{{"weed/storage/needle", "CreateNeedleFromRequest"}, {"weed/storage/needle", "(*Needle).ReadNeedleBodyBytes"}} {
+		fn := c.NeedFunc(spec[0], spec[1])
+		if fn == nil {
+			continue
+		}
+		crcOfData := func(in ssa.Instruction) bool {
+			st, ok := in.(*ssa.Store)
+			if !ok || !eng.IsField(st.Addr, "Needle.Checksum") {
+				return false
+			}
+			call, isCall := eng.Unwrap(st.Val).(*ssa.Call)
+			return isCall && eng.CalleeIs(call, "needle.NewCRC") && eng.IsField(eng.Unwrap(eng.Arg(call, 0)), "Needle.Data")
+		}
+		stores := eng.Find(fn, eng.StoreToField("Needle.Data"))
+		c.AfterAll("ORDER-checksum", "data-then-checksum", fn, stores, crcOfData, nil,
+			"after the last assignment of the record's data the checksum is recomputed from that data, so the stored checksum is the checksum of the bytes written")
+	}
+	c.Expect("ORDER-checksum", 3)
+
 	// ---------------- (5) scanner
 	if fn := c.NeedFunc("weed/storage", "ScanVolumeFileFrom"); fn != nil {
 		hdrSize, _ := namedConst(P, "weed/storage/types", "NeedleHeaderSize")
